@@ -169,7 +169,7 @@ func runC05(r *rt.Runner) {
 	env := newPSEnv()
 	full, _ := c02Pool()
 	bm := newPairBitmap()
-	nCases := r.N(20000, 2000000)
+	nCases := r.N(40000, 2000000)
 	for k := 0; k < nCases; k++ {
 		r.Case("section", func(c *rt.C) {
 			rng := c.Rand()
